@@ -80,4 +80,11 @@ func (c *validatorListConstructor) appendNodeValidators(node schema.Node) {
 	}
 
 	c.list = append(c.list, v)
+
+	// A nullable object or array also accepts the null literal.
+	if t := node.Type(); (t == json.TypeArray || t == json.TypeObject) &&
+		node.Constraint(constraint.AnyConstraintType) == nil &&
+		node.Constraint(constraint.NullableConstraintType) != nil {
+		c.list = append(c.list, newLiteralValidator(node, c.parent))
+	}
 }
